@@ -45,6 +45,7 @@ type Profile struct {
 	ContextParams    bool
 	GroupedParams    bool
 	SliceQuery       bool
+	MinControllers   int
 	StrayController  bool // sometimes declare an annotated controller inside a type package (outside the globs)
 }
 
@@ -217,7 +218,11 @@ func GenProject(t *rapid.T, pf Profile) *Project {
 	}
 
 	// ---- controllers
-	nc := rapid.IntRange(1, pf.MaxControllers).Draw(t, "nControllers")
+	minCtrl := 1
+	if pf.MinControllers > minCtrl && pf.MinControllers <= pf.MaxControllers {
+		minCtrl = pf.MinControllers
+	}
+	nc := rapid.IntRange(minCtrl, pf.MaxControllers).Draw(t, "nControllers")
 	type opKey struct{ verb, path string }
 	var taken []opKey
 	opIdx := 0
@@ -259,6 +264,9 @@ func GenProject(t *rapid.T, pf Profile) *Project {
 		}
 		c.Desc = genDesc(t, "ctrlDesc")
 		c.Grouped = !pf.NoLayoutNoise && rapid.IntRange(0, 4).Draw(t, "grouped") == 0
+		if c.Grouped && rapid.Bool().Draw(t, "groupDoc") {
+			c.GroupDoc = "Types of this file, kept in one declaration group."
+		}
 		if !pf.NoLayoutNoise {
 			p.Noise = append(p.Noise, rapid.IntRange(0, 7).Draw(t, "noise"))
 		}
@@ -456,6 +464,32 @@ func GenProject(t *rapid.T, pf Profile) *Project {
 var CollidingNamePool = []string{"value", "opError", "controller", "statusCode", "authErr", "conversionErr", "w", "req", "ginCtx", "echoCtx", "fiberCtx", "engine", "ctx2", "err",
 	"user_id", "userId", "UserID", "json", "http", "runtime", "fmt", "strconv", "validatorErr", "middleware", "key", "emptyErr", "stdError", "validationError"}
 
+// RenameCamelTwins returns a copy of the project in which parameters of one method whose names coincide once
+// underscores and letter case are ignored (user_id / userId / UserID) are renamed apart (wire names kept).
+func RenameCamelTwins(p *Project) (*Project, bool) {
+	b, _ := json.Marshal(p)
+	var q Project
+	_ = json.Unmarshal(b, &q)
+	changed := false
+	for _, c := range q.Controllers {
+		for _, m := range c.Methods {
+			seen := map[string]bool{}
+			for i := range m.Params {
+				k := strings.ToLower(strings.ReplaceAll(m.Params[i].Name, "_", ""))
+				if seen[k] {
+					if m.Params[i].Wire == "" && m.Params[i].In != "context" && m.Params[i].In != "body" {
+						m.Params[i].Wire = m.Params[i].Name
+					}
+					m.Params[i].Name = fmt.Sprintf("%sTwin%d", strings.ReplaceAll(m.Params[i].Name, "_", ""), i)
+					changed = true
+				}
+				seen[k] = true
+			}
+		}
+	}
+	return &q, changed
+}
+
 // RenameColliding returns a copy of the project in which every parameter named like an entry of
 // CollidingNamePool is renamed (wire names kept), and whether anything was renamed.
 func RenameColliding(p *Project) (*Project, bool) {
@@ -471,7 +505,8 @@ func RenameColliding(p *Project) (*Project, bool) {
 						if m.Params[i].Wire == "" && m.Params[i].In != "context" && m.Params[i].In != "body" {
 							m.Params[i].Wire = n
 						}
-						m.Params[i].Name = "prm" + strings.ToUpper(n[:1]) + n[1:] + "Zz"
+						// the index keeps the new names apart once they are camel-cased (user_id / userId)
+						m.Params[i].Name = fmt.Sprintf("prm%s%s%dZz", strings.ToUpper(n[:1]), strings.ReplaceAll(n[1:], "_", ""), i)
 						changed = true
 					}
 				}
